@@ -152,12 +152,26 @@ theorem C10_reachable (s : Sys) (es : List Ev) (h : s.store = {}) : Consistent (
 /-! ## 4. crashes -/
 
 /-- **C10, crash form.** A client death can only cut between atomic steps: whatever prefix of
-whatever schedule was executed when clients died, the keyspace is consistent. -/
+whatever schedule was executed when clients died, the keyspace is consistent.
+
+This is a *corollary* of `C10_main`, not an independent result: `C10_main` already quantifies over every event
+list, hence over every prefix `es'` of every schedule `es`; the hypothesis `_hp` is not used and is kept only so that
+the statement reads as the property does ("a crash at any point of any history").  What carries the weight is (a)
+`C10_main` / `consistent_atomic_step`, and (b) the claim that a crash can only fall *between* the model's atomic
+steps, i.e. that each batch of the model is one `MULTI…EXEC` in the code — which is a fact about the source, pinned by
+`facts_batches_atomic` below and exercised by the differential run with injected crashes. -/
 theorem C10_crash (s : Sys) (h : Consistent s.store) (es es' : List Ev) (_hp : es' <+: es) :
     Consistent (s.run es').store :=
   C10_main s es' h
 
-/-- in every reachable state every lock key carries an expiry: a dead holder cannot block an address forever -/
+/-- in every reachable state every lock key carries an expiry: a dead holder cannot block an address forever.
+
+True *by construction* of the model: the only step that creates a lock cell is `RStore.lockSetNX`, which writes
+`ttl := true` unconditionally (`Model/Store.lean`), so this theorem only says that no other step of the model creates or
+alters a cell.  The tie to the code is not this theorem but `facts_lock_ttl` below (the regenerated facts about
+`redislock.go`: one `SetNX` whose TTL argument is `Guard`'s `ttl` parameter, filled with the positive lease option, and no
+separate `Expire` / `PExpire` / `Persist` / `Set` call) together with the differential run, whose keyspace dumps carry a
+TTL flag for every lock key. -/
 theorem lock_ttl (s : Sys) (h : Consistent s.store) (es : List Ev) (k : Nat) (c : LockCell)
     (hc : (s.run es).store.locks[k]? = some c) : c.ttl = true :=
   (C10_main s es h).ttl k c hc
@@ -218,5 +232,71 @@ example :
 /-- a lock cell exists after `SET NX EX`, so `lock_ttl` is not vacuous -/
 example : ((({} : RStore).lockSetNX 3 1).1).locks[3]? = some ⟨1, true⟩ := by
   simp [lockSetNX, touchLock]
+
+end Swat4.C10
+
+/-! # Additions: the source facts behind "one batch = one atomic step" and "every lock key has an expiry" -/
+namespace Swat4.C10
+open Swat4 Swat4.RStore Std
+
+/-- **Each batch of the model is one `MULTI…EXEC` in the source** (regenerated `Gen/Facts.lean`, section `storewrites`,
+extracted from the Go source by `harness/internal/facts/storewrites.go` on every run).  The complete inventory of Redis
+write call sites of the three repositories and `redislock.go`:
+
+* inside a `….TxPipelined(ctx, func(pipe){ pipe.X(…) … })` closure, i.e. queued between one `MULTI` and its `EXEC` —
+  `servers.remove` (`AStep.remove`: HDEL, ZREM, ZREM, SREM×members), `servers.save` (`AStep.save`: HSET, ZADD,
+  ZREM|ZADD, SADD|SREM×members), `instances.Add` (`insAdd`: HSET, ZADD), `instances.Remove` (`insRemove`: HDEL, ZREM),
+  `instances.Clear` (`insClear`: ZREM, HDEL), `probes.enqueue` (`enqueue`: HSET, ZADD), `probes.pop` (`pop`: ZREM, HDEL);
+  one call site per command of the model's batch, nothing else;
+* outside such a closure — only `redislock.Guard`'s `SetNX` (`AStep.lockSetNX`) and `redislock.release`'s `Del`
+  (`AStep.lockDel`), which the model executes as steps of their own.
+
+A write moved out of the closure (`tx.SRem` / `tx.HSet` instead of `pipe.…`), a new write site, or a batch sent with a
+bare `Pipelined` (no `MULTI`) changes one of these lists and breaks this theorem. -/
+theorem facts_batches_atomic :
+    Facts.storeWritesOutsideTx =
+      [("redislock", "Guard", "m.client", "SetNX"), ("redislock", "release", "tx *redis.Tx", "Del")] ∧
+    Facts.storeWritesInTx =
+      [("servers", "remove", "tx *redis.Tx", "HDel"), ("servers", "remove", "tx *redis.Tx", "ZRem"),
+       ("servers", "remove", "tx *redis.Tx", "ZRem"), ("servers", "remove", "tx *redis.Tx", "SRem"),
+       ("servers", "save", "tx *redis.Tx", "HSet"), ("servers", "save", "tx *redis.Tx", "ZAdd"),
+       ("servers", "save", "tx *redis.Tx", "ZRem"), ("servers", "save", "tx *redis.Tx", "ZAdd"),
+       ("servers", "save", "tx *redis.Tx", "SAdd"), ("servers", "save", "tx *redis.Tx", "SRem"),
+       ("instances", "Add", "r.client", "HSet"), ("instances", "Add", "r.client", "ZAdd"),
+       ("instances", "Remove", "r.client", "HDel"), ("instances", "Remove", "r.client", "ZRem"),
+       ("instances", "Clear", "r.client", "ZRem"), ("instances", "Clear", "r.client", "HDel"),
+       ("probes", "enqueue", "r.client", "HSet"), ("probes", "enqueue", "r.client", "ZAdd"),
+       ("probes", "pop", "r.client", "ZRem"), ("probes", "pop", "r.client", "HDel")] ∧
+    Facts.storeTxCalls =
+      [("servers", "remove", "tx *redis.Tx", "TxPipelined"), ("servers", "filterServerKeys", "r.client", "Pipelined"),
+       ("servers", "CountByStatus", "r.client", "TxPipelined"), ("servers", "save", "tx *redis.Tx", "TxPipelined"),
+       ("instances", "Add", "r.client", "TxPipelined"), ("instances", "Remove", "r.client", "TxPipelined"),
+       ("instances", "Clear", "r.client", "TxPipelined"), ("probes", "enqueue", "r.client", "TxPipelined"),
+       ("probes", "pop", "r.client", "TxPipelined"),
+       ("redislock", "Guard", "m.client", "Watch"), ("redislock", "release", "m.client", "Watch")] := by
+  decide
+
+/-- … read off the lists: the only non-transactional pipeline (`Pipelined`, no `MULTI`) is in a function that
+performs no write at all (`filterServerKeys`, the index reads of `Filter`) -/
+theorem facts_no_bare_pipeline_in_writer :
+    ∀ x ∈ Facts.storeTxCalls, x.2.2.2 ≠ "TxPipelined" → x.2.2.2 ≠ "Watch" →
+      ∀ y ∈ Facts.storeWritesInTx ++ Facts.storeWritesOutsideTx, ¬ (y.1 = x.1 ∧ y.2.1 = x.2.1) := by
+  decide
+
+/-- **Every lock key is created with an expiry** (the tie of `lock_ttl` / `Consistent.ttl` to `redislock.go`).  The only
+`SetNX` call is `m.client.SetNX(ctx, key, token, ttl)` in `Guard`, its TTL argument is `Guard`'s own `ttl` parameter;
+the only caller of `Guard` (`servers.updateExclusive`) passes `r.lockOpts.LeaseDuration`, whose value in a repository as
+`servers.New` builds it is positive (`lockLeaseMs`, read from a real instance); and no call in `redislock.go` could set
+the key without a TTL, change its TTL or make it persistent (`Set…`, `GetSet`, `GetEx`, `…Expire…`, `Persist`).  Splitting
+the acquisition into `SetNX(key, token, 0)` + `PExpire` — which a crash could cut in between, leaving a lock that never
+expires — changes the second and the third list. -/
+theorem facts_lock_ttl :
+    Facts.lockSetNX = [("Guard", "m.client", "ctx context.Context, key string, token, ttl time.Duration")] ∧
+    Facts.lockGuardParams = ["ctx context.Context", "key string", "ttl time.Duration", "op func(tx *redis.Tx) error"] ∧
+    Facts.lockExpireCalls = [] ∧
+    Facts.lockGuardCalls =
+      [("updateExclusive", "r.locker", "ctx context.Context, lockKey, r.lockOpts.LeaseDuration, func")] ∧
+    0 < Facts.lockLeaseMs := by
+  decide
 
 end Swat4.C10
